@@ -22,6 +22,11 @@ def build_wf(n, links, rem, rev=False):
         sp["order"] = list(range(n))[::-1]  # task_list not in precedence order  # the sets inside the PERT passes are then iterated in the opposite order
     if rev == "extend-gen":
         sp["link_api"] = "extend-gen"
+    if rev == "dup-links":
+        sp["links"] = sp["links"] + [list(l) for l in sp["links"]]  # every link declared twice (accepted by the library; the network is the same)
+    if rev == "sub":
+        for t_ in sp["tasks"][:2]:
+            t_["sub"] = {}  # sub-project tasks (not configured from a file: plain automatic tasks of their own class)
     m = S.build(sp)
     if rev == "prefinished" and n > 1:
         pass  # remaining work of the pre-finished task is 0; workflow.initialize() puts it into FINISHED
@@ -117,7 +122,9 @@ def apply_history(n, links, rem0, hist, rev=False):
         m.tasks[j].append_input_task(m.tasks[i])
         wf.initialize()
     else:
-        m = build_wf(n, links, rem0, rev if rev not in ("loaded", "loaded-id0") else False)
+        m = build_wf(n, links, rem0, rev if rev not in ("loaded", "loaded-id0", "loaded-sub") else ("sub" if rev == "loaded-sub" else False))
+        if rev == "loaded-sub":
+            rev = "loaded"
         if rev == "loaded-id0":
             m.tasks[min(1, n - 1)].ID = 0  # an explicit ID that happens to be falsy
             rev = "loaded"
@@ -308,6 +315,8 @@ def hist_items(tier):
                         out.append((n, links, rem0, 1, "loaded"))
                         out.append((n, links, rem0, 1, "extend-gen"))
                         out.append((n, links, rem0, 1, "loaded-id0"))
+                        out.append((n, links, rem0, 1, "loaded-sub"))
+                        out.append((n, links, rem0, 1, "dup-links"))
                         out.append((n, links, rem0, 1, "late-append"))
                         for rot in range(len(links)):
                             out.append((n, links[rot:] + links[:rot], rem0, 1, "late-link"))  # every link takes its turn as the one added late
@@ -317,6 +326,7 @@ def hist_items(tier):
                 out.append((4, links, rem0, 1, True))
                 if sum(rem0) % 3 == 0:
                     out.append((4, links, rem0, 1, "order"))
+                    out.append((4, links, rem0, 1, "dup-links"))
                 if links and sum(rem0) % 4 == 1:
                     for rot in range(len(links)):
                         out.append((4, links[rot:] + links[:rot], rem0, 0, "late-link"))
@@ -329,6 +339,8 @@ def hist_items(tier):
                         out.append((n, links, rem0, 3, True))
                         out.append((n, links, rem0, 2, "loaded"))
                         out.append((n, links, rem0, 2, "late-append"))
+                        out.append((n, links, rem0, 2, "loaded-sub"))
+                        out.append((n, links, rem0, 2, "dup-links"))
                         for rot in range(len(links)):
                             out.append((n, links[rot:] + links[:rot], rem0, 2, "late-link"))
         for links in F.fs_dags(5):
